@@ -366,7 +366,7 @@ where
         P::Item: Borrow<Probability>,
     {
         let symbols = symbols.into_iter();
-        let mut cdf = Vec::with_capacity(symbols.size_hint().0 + 1);
+        let mut cdf = Vec::with_capacity(symbols.size_hint().0.wrapping_add(1));
         let mut symbols = accumulate_nonzero_probabilities::<_, _, _, _, _, PRECISION>(
             symbols,
             probabilities.into_iter(),
@@ -945,8 +945,12 @@ where
         P::Item: Borrow<Probability>,
     {
         let symbols = symbols.into_iter();
-        let mut table =
-            HashMap::with_capacity(symbols.size_hint().0 + infer_last_probability as usize);
+        let mut table = HashMap::with_capacity(
+            symbols
+                .size_hint()
+                .0
+                .wrapping_add(infer_last_probability as usize),
+        );
         let mut symbols = accumulate_nonzero_probabilities::<_, _, _, _, _, PRECISION>(
             symbols,
             probabilities.into_iter(),
